@@ -1775,16 +1775,24 @@ impl UnifiedCommandExecutor {
             BitCommand::BitCount { key, start, end } => {
                 match self.storage.get_string(db, &key)? {
                     Some(value) => {
-                        let (start_byte, end_byte) = if let (Some(s), Some(e)) = (start, end) {
-                            let len = value.len() as isize;
-                            let start_pos = if s < 0 { (len + s).max(0) } else { s.min(len - 1) } as usize;
-                            let end_pos = if e < 0 { (len + e).max(0) } else { e.min(len - 1) } as usize;
-                            (start_pos, end_pos)
-                        } else {
-                            (0, value.len().saturating_sub(1))
+                        // Redis' normalisation, in signed arithmetic: a negative index counts
+                        // from the end, both are clamped to the value, and an empty value or
+                        // start > end is an empty range (it was a slice out of range: a panic)
+                        let len = value.len() as isize;
+                        let (start, end) = match (start, end) {
+                            (Some(s), Some(e)) => (s, e),
+                            _ => (0, -1),
                         };
-                        
-                        let slice = &value[start_byte..=end_byte.min(value.len().saturating_sub(1))];
+                        if start < 0 && end < 0 && start > end {
+                            return Ok(RespFrame::Integer(0));
+                        }
+                        let start = if start < 0 { (len + start).max(0) } else { start };
+                        let end = if end < 0 { (len + end).max(0) } else { end }.min(len - 1);
+                        if start > end {
+                            return Ok(RespFrame::Integer(0));
+                        }
+
+                        let slice = &value[start as usize..=end as usize];
                         let bit_count = slice.iter().map(|&byte| byte.count_ones() as i64).sum::<i64>();
                         Ok(RespFrame::Integer(bit_count))
                     }
